@@ -285,47 +285,33 @@ func pages(input OmegaInput) (output OmegaOutput) {
 		}
 	}
 
-	if r > 2 && !isReadable(p, c, input.Addition.IntegratedPVMMap[n].Memory) {
-		input.VM.Registers[7] = HUH
-		return OmegaOutput{
-			ExitReason: ExitContinue,
-			Addition:   input.Addition,
+	memory := input.Addition.IntegratedPVMMap[n].Memory
+	// otherwise if r > 2 and some page of p...+c is inaccessible (the range is one of page numbers, not of addresses)
+	if r > 2 {
+		for i := uint32(p); i < uint32(p+c); i++ {
+			if memory.GetPageAccess(i) == MemoryInaccessible {
+				input.VM.Registers[7] = HUH
+				return OmegaOutput{
+					ExitReason: ExitContinue,
+					Addition:   input.Addition,
+				}
+			}
 		}
 	}
 
 	// otherwise : ok
-	// u_v
-	if r >= 3 {
-		for i := uint32(p); i < uint32(p+c); i++ {
-			input.Addition.IntegratedPVMMap[n].Memory.Pages[i] = &Page{
-				Value:  make([]byte, ZP),
-				Access: MemoryInaccessible,
-			}
-		}
-	}
-
-	// u_a
-	if r == 0 { // inaccessible, contents zero: the pages are dropped from the map
-		for i := uint32(p); i < uint32(p+c); i++ {
-			delete(input.Addition.IntegratedPVMMap[n].Memory.Pages, i)
-		}
-	}
-
-	if r == 1 || r == 3 {
-		for i := uint32(p); i < uint32(p+c); i++ {
-			input.Addition.IntegratedPVMMap[n].Memory.Pages[i] = &Page{
-				Value:  make([]byte, ZP),
-				Access: MemoryReadOnly,
-			}
-		}
-	}
-
-	if r == 2 || r == 4 {
-		for i := uint32(p); i < uint32(p+c); i++ {
-			input.Addition.IntegratedPVMMap[n].Memory.Pages[i] = &Page{
-				Value:  make([]byte, ZP),
-				Access: MemoryReadWrite,
-			}
+	for i := uint32(p); i < uint32(p+c); i++ {
+		switch r {
+		case 0: // inaccessible, contents zero: the page is dropped from the map
+			delete(memory.Pages, i)
+		case 1: // u_v zero, u_a = R
+			memory.Pages[i] = &Page{Value: make([]byte, ZP), Access: MemoryReadOnly}
+		case 2: // u_v zero, u_a = W
+			memory.Pages[i] = &Page{Value: make([]byte, ZP), Access: MemoryReadWrite}
+		case 3: // u_v kept, u_a = R
+			memory.Pages[i].Access = MemoryReadOnly
+		case 4: // u_v kept, u_a = W
+			memory.Pages[i].Access = MemoryReadWrite
 		}
 	}
 
